@@ -1,4 +1,5 @@
 """C05 — Stream information equals what the headers encode."""
+import os
 import io, struct, itertools, importlib
 from vcheck import hx, parse_fields
 from guards import timed
@@ -283,8 +284,45 @@ def check_more(ctx):
             ctx.violation("%s:%s" % (kind, "+".join(sorted(bad))), "%s info differs from the header: %r" % (kind, bad), case)
 
 
+def check_ogg_last_page(ctx):
+    """the length of an Ogg stream comes from the granule position of its last page: a packet of that page whose bytes
+    look like a page header must not be taken for a page (theorem/witness: Props/C05_OggVorbis.lean ogg_false_sync_witness)"""
+    import io
+    from mutagen.ogg import OggPage
+    for fmt_name, sample, mod, cls in (("OggVorbis", "empty.ogg", "mutagen.oggvorbis", "OggVorbis"), ("OggOpus", "example.opus", "mutagen.oggopus", "OggOpus"),
+                                       ("OggSpeex", "empty.spx", "mutagen.oggspeex", "OggSpeex")):
+        K = getattr(__import__(mod, fromlist=[cls]), cls)
+        data = open(os.path.join(ctx.repo, "tests", "data", sample), "rb").read()
+        f = io.BytesIO(data); pages = []
+        while True:
+            try:
+                pages.append(OggPage(f))
+            except EOFError:
+                break
+        last = pages[-1]
+        want = K(io.BytesIO(data)).info.length
+        for factor in (10, 0):
+            fake = OggPage(); fake.serial = last.serial; fake.sequence = last.sequence + 1; fake.position = last.position * factor
+            fake.last = True; fake.packets = [b"zz"]
+            new = OggPage(); new.serial = last.serial; new.sequence = last.sequence; new.position = last.position; new.last = True
+            new.complete = True; new.continued = last.continued
+            new.packets = [fake.write()]
+            out = b"".join(p.write() for p in pages[:-1]) + new.write()
+            case = {"format": fmt_name, "sample": sample, "embedded_granule_factor": factor}
+            ctx.case(key=("ogg-last-page", fmt_name, factor), nontrivial=True, modelled=False, sample=case if factor == 10 and fmt_name == "OggVorbis" else None)
+            ctx.hist["ogg-last-page"] += 1
+            try:
+                got = K(io.BytesIO(out)).info.length
+            except Exception as e:
+                ctx.violation("ogg:last-page:raises:%s" % fmt_name, "%s on a stream whose last page carries a packet that looks like a page header: %s" % (type(e).__name__, e), case)
+                continue
+            if got != want:
+                ctx.violation("ogg:last-page:false-sync:%s" % fmt_name, "length %r, the last page's granule position encodes %r" % (got, want), case)
+
+
 def run(ctx):
     ctx.rule = RULE
+    check_ogg_last_page(ctx)
     check_mpeg(ctx)
     check_mpeg_vbr(ctx)
     check_flac(ctx)
